@@ -35,7 +35,7 @@ Proof. exact (ci_time x msf S now now' ls e). Qed.
 (* ... and by every step of an instance: Mutes for any label set, API status, MuteStage batches, alert GC (cache
    eviction), restart from a snapshot with a new Silencer. *)
 Theorem c02_instance_inv x msf c t SC now o :
-  CInv x msf t SC -> t <= now -> wf_cop x msf (fst SC) o -> CInv x msf now (fst (cstep c x SC now o)).
+  CInv x msf t SC -> t <= now -> wf_cop x msf c (fst SC) now o -> CInv x msf now (fst (cstep c x SC now o)).
 Proof. exact (cstep_inv x msf c t SC now o). Qed.
 
 (* (2) MUTES = BRUTE, for all histories: along ANY history of one instance that starts empty — any interleaving of
@@ -88,14 +88,31 @@ Theorem c02_api_status_eq x msf t S C now ls :
   exists ids C', api_silenced_by x S now C ls = (C', Some ids) /\ ids ≡ₚ brute_ids x S ls now /\ CInv x msf now (S, C').
 Proof. exact (api_status_correct x msf t S C now ls). Qed.
 
-(* (5) Concurrency, PARTIAL. Proved: an entry that Mutes computed from ONE atomic view of the store (both Queries
-   and the state evaluation at the same store state and instant) may be written arbitrarily late — after any store
-   operations, over any entry the cache holds by then — and the cache invariant still holds, so every later Mutes is
-   again exact. NOT proved (and not true without the store lock spanning the call): Mutes' two Queries and its
-   getState evaluation are three separate reads. With Merge the only re-indexing writer, a cached silence whose end
-   falls between the first Query and the evaluation AND that is extended in place (local Set) inside that same window
-   is dropped from the entry although its new version is live; the window is the duration of one Mutes call.
-   Linearisability of concurrent Mutes is not claimed (DESIGN C02, section 10). *)
+(* (5) Concurrency, PARTIAL. Mutes is five atomic steps with no lock held in between (cache read | Version() read |
+   Query of the cached ids | QSince query | state evaluation + cache write); Model/Silencer.v's [mutes_at] takes the
+   store as each step sees it. PROVED, for ANY store operations (Set create / edit / rewrite, Expire, Merge adding or
+   replacing, GC, API calls; any number, any order) landing before, between and after the steps, an ARBITRARY store
+   at the Version() read (the comparison only selects the branch), an arbitrarily late cache write over whatever the
+   cache holds by then: the entry written keeps the cache invariant, hence (c02_mutes_eq_brute_state) EVERY LATER
+   Mutes call returns exactly brute / brute_ids. In particular the entry is never stamped with a version that skips a
+   silence it has not looked at. The interleaved histories are also part of c02_mutes_eq_brute (operation CMutesI).
+   ASSUMED: the two Queries and the state evaluation of the one call read the same clock value [now] (true under
+   virtual time; with a real clock the three reads are microseconds apart). Without it the statement is false for the
+   unchanged code: a cached silence whose end falls between the first Query and the evaluation AND that is extended
+   in place by a local Set inside that window is dropped from the entry although its new version is live (Set does
+   not re-index; the repo's TestSilenceSet pins Version() across in-place edits).
+   NOT CLAIMED: the verdict of the interrupted call itself. It is assembled from two store states and can differ
+   from brute of both (cached silence A replaced by an expired version and a new matching silence B added between
+   the Version() read and the Query of the cached ids of an up-to-date entry: A is gone, B is not looked at, the call
+   says "not muted" although the alert was silenced throughout). No linearisability of concurrent Mutes (DESIGN 10). *)
+Theorem c02_mutes_interleaved_partial x msf c t0 S0 C0 now Sv So Sn te Se Cw ls :
+  CInv x msf t0 (S0, C0) ->
+  sreach x msf c t0 S0 now So -> sreach x msf c now So now Sn -> sreach x msf c now Sn te Se ->
+  (forall ls', CI x msf Se te ls' (Cw ls')) ->
+  CInv x msf te (Se, fst (mutes_at x now C0 Sv So Sn Cw ls)).
+Proof. exact (mutes_interleaved_inv x msf c t0 S0 C0 now Sv So Sn te Se Cw ls). Qed.
+
+(* the special case of one atomic view, written late *)
 Theorem c02_late_cache_write_partial x msf c t1 S1 C1 ls C1' r t2 S2 C2 :
   CInv x msf t1 (S1, C1) -> mutes x S1 t1 C1 ls = (C1', r) ->
   sreach x msf c t1 S1 t2 S2 -> (forall ls', CI x msf S2 t2 ls' (C2 ls')) ->
@@ -129,14 +146,30 @@ Example c02_repaired_merge_mutes :
   brute ex_x S2 ex_ls 500 = true /\ snd (mutes ex_x S2 500 ex_C1 ex_ls) = MOk true ["id1"].
 Proof. vm_compute. split; reflexivity. Qed.
 
+(* a version stamp taken after the reads would be wrong: the model of such a Mutes (entry version := Version() read at
+   the cache write) loses a silence created between the QSince query and the write, for every later call *)
+Definition ex_new : silence := mkSil "" ex_ms 100 9000 0 "u" "" [].
+Example c02_late_version_stamp_refuted :
+  let S0 := empty_store in
+  let S1 := fst (step ex_c ex_x S0 100 (OSet ex_new "id1" 0)) in
+  (* the real Mutes, interrupted after its QSince query by the creation of id1: entry (0, []), next call mutes *)
+  let C1 := fst (mutes_at ex_x 100 empty_cache S0 S0 S0 empty_cache ex_ls) in
+  snd (mutes ex_x S1 100 C1 ex_ls) = MOk true ["id1"] /\
+  (* the entry stamped with the version read at the write: the next call takes the fast path, not muted *)
+  snd (mutes ex_x S1 100 (cache_set empty_cache ex_ls (mkCE (ver S1) [])) ex_ls) = MOk false [] /\
+  brute ex_x S1 ex_ls 100 = true.
+Proof. vm_compute. repeat split; reflexivity. Qed.
+
 (* ---------- non-vacuity: the hypotheses of c02_mutes_eq_brute are met by a history with a creation, a Mutes, an
    expiry, a Mutes that drops the silence, a REPLACING merge, GC, alert GC, a restart and a MuteStage batch ---------- *)
-Definition ex_msf (_ : string) : list (list matcher) := ex_ms.
+Definition ex_msf (id : string) : list (list matcher) := if String.eqb id "id2" then [[mkM MEq "a" "2"]] else ex_ms.
 Definition ex_wire : option wire := Some (mkWire (m_sil ex_rev) (m_exp ex_rev) [mkM MEq "a" "1"] []).
 Definition ex_hist : list (Z * cop) :=
   [ (100, CStore (OSet ex_sil "id1" 0)); (150, CMutes ex_ls); (200, CStore (OExpire "id1")); (300, CMutes ex_ls);
     (400, CStore (OMerge [ex_wire] ["id1"] 100)); (500, CMutes ex_ls); (500, CStage [ex_ls; [("a", "2")]; ex_ls]);
-    (600, CStore OGC); (600, CAlertGC [ex_ls]); (700, CApi ex_ls); (800, CReload []); (900, CMutes ex_ls) ].
+    (600, CStore OGC); (600, CAlertGC [ex_ls]); (700, CApi ex_ls); (800, CReload []); (900, CMutes ex_ls);
+    (950, CMutesI [("a", "2")] IAfterNewQuery [OSet (mkSil "" [[mkM MEq "a" "2"]] 950 9000 0 "u" "" []) "id2" 0]);
+    (960, CMutes [("a", "2")]) ].
 
 Example c02_hist_ok_nonvacuous : hist_ok ex_x ex_msf ex_c (empty_store, empty_cache) 0 ex_hist.
 Proof.
@@ -151,7 +184,9 @@ Example c02_hist_outputs_nonvacuous :
     XStore (RExpireOk [mkMsil (mkSil "id1" ex_ms 100 200 200 "u" "" []) 3800]);
     XMutes (MOk false []) 1 [];
     XStore (RMerged 1); XMutes (MOk true ["id1"]) 2 ["id1"]; XStage (Some [[("a", "2")]]);
-    XStore (RGC 0 false); XEntries [(0, [])]; XApi (Some ["id1"]); XStore RReloaded; XMutes (MOk true ["id1"]) 1 ["id1"] ].
+    XStore (RGC 0 false); XEntries [(0, [])]; XApi (Some ["id1"]); XStore RReloaded; XMutes (MOk true ["id1"]) 1 ["id1"];
+    XMutesI (MOk false []) 1 [] [RSetOk "id2" [mkMsil (mkSil "id2" [[mkM MEq "a" "2"]] 950 9000 950 "u" "" []) 12600]];
+    XMutes (MOk true ["id2"]) 2 ["id2"] ].
 Proof. vm_compute. reflexivity. Qed.
 
 Print Assumptions c02_mutes_eq_brute.
@@ -160,5 +195,6 @@ Print Assumptions c02_instance_inv.
 Print Assumptions c02_effect_immediate.
 Print Assumptions c02_mute_stage_drops.
 Print Assumptions c02_api_status_eq.
+Print Assumptions c02_mutes_interleaved_partial.
 Print Assumptions c02_late_cache_write_partial.
 Print Assumptions c02_unrepaired_merge_refuted.
